@@ -71,7 +71,7 @@ def colorRun (s : St) : List Op → List String
 
 /-! `c09.fill`: a fill as `N` (none) `0` (noFill) `B` (blip) `G` (grpFill) `S/<colour>` `R/<lin>/<path>/<pos>@<colour>+...`
     `P/<prst>/<fg>/<bg>` (`n` = absent attribute / `a:lin`, `~` = absent `a:fgClr` / `a:bgClr`, `!` = no stops); calls `bg so gr pa
-    pt<prst> f:<colour op> k:<colour op> an<n>/<d> sc<i>:<colour op> sp<i>:<n>/<d>`; per call: result, fill, readers -/
+    pt<prst> f:<colour op> k:<colour op> c:<colour op> an<n>/<d> sc<i>:<colour op> sp<i>:<n>/<d>`; per call: result, fill, readers -/
 open Pptx.Fill in
 def decStop (t : String) : Option Stop :=
   match t.splitOn "@" with
@@ -114,6 +114,7 @@ def decFillOp (t : String) : Option Op :=
     if r == "n" then some (.pattern none) else r.toNat?.map fun p => .pattern (some p)
   else if t.startsWith "f:" then (decOp (t.drop 2).toString).map .fore
   else if t.startsWith "k:" then (decOp (t.drop 2).toString).map .back
+  else if t.startsWith "c:" then (decOp (t.drop 2).toString).map .viaColor
   else if t.startsWith "an" then
     match (t.drop 2).toString.splitOn "/" with
     | [n, d] => do let n ← n.toInt?; let d ← d.toNat?; pure (.angle n d)
